@@ -5,25 +5,29 @@
 (* SetSchema and Dispose.                                                      *)
 EXTENDS Subs
 
-CONSTANTS MaxTx, MaxBinds, MaxCtx
+CONSTANTS MaxTx, MaxBinds, MaxCtx,
+          UseArgs    \* include WhenArgs / WhenQueueEnds / WhenTicks / WhenNextActive and mutation args
 
 VARIABLES ntx, nset
 
 mvars == <<vars, ntx, nset>>
 
-AddTx(s, acc) ==
+(* mutation args / requested args: sets of <<key, value>> pairs                *)
+ArgSets == {{}, {<<"a", 1>>}, {<<"a", 1>>, <<"b", 2>>}}
+
+AddTx(s, acc, args) ==
   LET wasActive == s \in active
       enters == acc /\ (~wasActive \/ s \in MultiStates)
       nc == IF ~acc THEN clock
             ELSE IF ~wasActive THEN [clock EXCEPT ![s] = @ + 1]
             ELSE IF s \in MultiStates THEN [clock EXCEPT ![s] = @ + 2] ELSE clock
-  IN [accepted |-> acc, check |-> FALSE, ticked |-> TRUE,
+  IN [accepted |-> acc, check |-> FALSE, ticked |-> TRUE, args |-> args,
       activated |-> IF enters THEN {s} ELSE {}, deactivated |-> {},
       newActive |-> IF acc THEN active \cup {s} ELSE active, newClock |-> nc]
 
 RemTx(s, acc) ==
   LET wasActive == s \in active
-  IN [accepted |-> acc, check |-> FALSE, ticked |-> TRUE,
+  IN [accepted |-> acc, check |-> FALSE, ticked |-> TRUE, args |-> {},
       activated |-> {}, deactivated |-> IF acc /\ wasActive THEN {s} ELSE {},
       newActive |-> IF acc THEN active \ {s} ELSE active,
       newClock |-> IF acc /\ wasActive THEN [clock EXCEPT ![s] = @ + 1] ELSE clock]
@@ -42,6 +46,9 @@ Subscribe ==
           SubWhenQuery([kind |-> "ge", state |-> s, n |-> clock[s] + 1], c)
      \/ \E s \in States : SubWhenQuery([kind |-> "inactive", state |-> s], 0)
      \/ SubWhenQueue(qtick + 1)
+     \/ (UseArgs /\ \E s \in States : \E a \in ArgSets : \E c \in Ctxs : SubWhenArgs(s, a, c))
+     \/ (UseArgs /\ SubWhenQueueEnds)
+     \/ (UseArgs /\ \E s \in States : \E c \in Ctxs : (SubWhenTicks(s, 1, c) \/ SubWhenNextActive(s, c)))
   /\ UNCHANGED <<ntx, nset>>
 
 MCNext ==
@@ -49,7 +56,9 @@ MCNext ==
   \/ (Len(sctx) < 2 /\ \E s \in States : SubStateCtx(s) /\ UNCHANGED <<ntx, nset>>)
   \/ (\E c \in 1..MaxCtx : CtxCancel(c) /\ UNCHANGED <<ntx, nset>>)
   \/ /\ ntx < MaxTx
-     /\ \E s \in States : \E acc \in BOOLEAN : (TxApply(AddTx(s, acc)) \/ TxApply(RemTx(s, acc)))
+     /\ \E s \in States : \E acc \in BOOLEAN :
+          \/ \E a \in (IF UseArgs THEN ArgSets ELSE {{}}) : TxApply(AddTx(s, acc, a))
+          \/ TxApply(RemTx(s, acc))
      /\ ntx' = ntx + 1 /\ nset' = nset
   \/ (TxProcess /\ UNCHANGED <<ntx, nset>>)
   \/ (nset = 0 /\ SetSchema /\ nset' = 1 /\ ntx' = ntx)
